@@ -63,9 +63,19 @@ def parse_units(ctx, src):
                                     Rule(r'\bis_signed_v<RetT>', '(!C17_IS_UNSIGNED(RetT))', regex=True)])
     ui.write(suffix='.inc')
     uf = Unit(ctx, 'parse_float')
+    # the scanner is strtod (today's text) or std::stod (its C++ wrapper, which reports failures by exception): whichever the
+    # text uses is modelled by stubs/C17_strto.h; a try statement around it is lowered like the getters' (LowerExc)
+    _, pf_body, _, _ = lex.find_def(src.text(HH), r'static RetT parse_float\(const IdentT& id, const std::string& text\)', 'function')
+    if re.search(r'\bstod\(', pf_body):
+        ncatch = len(re.findall(r'\bcatch\b', lex.mask(pf_body)))
+        pf_rules = [Rule('text.size()', 'vstr_size(text)'), Rule('text.c_str()', 'C17_c_str(text)'),
+                    Rule(r'\bstod\(text, ([^;]+)\);', r'C17_stod(text, \1); if (verif_exc) VERIF_RAISE;', count=1, regex=True),
+                    LowerExc([None] * ncatch, ['C17_stod'], ['C17_c_str', 'vstr_size', 'exc_prefix'])]
+    else:
+        pf_rules = TEXT_RULES + [Rule(r'\bstrtod\(', 'C17_strtod(', count=1, regex=True)]
     uf.function(src, HH, r'static RetT parse_float\(const IdentT& id, const std::string& text\)', scope=ARGS,
                 new_header='static RetT PF_NAME(const void* id, const vstr* text)', ret_zero='0',
-                rules=TEXT_RULES + [Rule(r'\bstrtod\(', 'C17_strtod(', count=1, regex=True)])
+                rules=pf_rules)
     uf.write(suffix='.inc')
     return ui, uf
 
